@@ -74,13 +74,18 @@ def _normalize_parsed_items(
 
     for measure in list_items:
         # list version is the only element without obis code
-        element_name = (
-            obis_map.obis_name_map[Obis.from_string(measure.obis).to_group_cdr_str()]
-            if measure.obis
-            else obis_map.FIELD_OBIS_LIST_VER_ID
-        )
+        if measure.obis:
+            obis_group_cdr = Obis.from_string(measure.obis).to_group_cdr_str()
+            if obis_group_cdr in obis_map.obis_name_map:
+                element_name = obis_map.obis_name_map[obis_group_cdr]
+            else:
+                element_name = obis_group_cdr
+        else:
+            element_name = obis_map.FIELD_OBIS_LIST_VER_ID
 
         if element_name == obis_map.FIELD_METER_DATETIME:
+            if not hasattr(measure.value, "datetime"):
+                raise ValueError("Expected date-time list item.")
             dictionary[element_name] = measure.value.datetime
         else:
             if isinstance(measure.value, int):
@@ -104,7 +109,8 @@ def normalize_parsed_frame(
 ) -> dict[str, str | int | float | datetime]:
     """Convert data from meters construct structure to a dictionary with common key names."""
     dictionary = _normalize_parsed_items(frame.information.notification_body.list_items)
-    dictionary[obis_map.FIELD_METER_DATETIME] = frame.information.DateTime.datetime
+    if hasattr(frame.information.DateTime, "datetime"):
+        dictionary[obis_map.FIELD_METER_DATETIME] = frame.information.DateTime.datetime
     return dictionary
 
 
